@@ -285,20 +285,22 @@ impl Prop for Real {
         let cfg = (
             (any::<bool>(), if kind == Kind::C16 { 0u8..80 } else { 0u8..14 }, vec(prop_oneof![5 => 0u8..30, 1 => 30u8..255], 1..5), 3usize..48, 0u8..6, prop::option::weighted(0.5, 1u8..64)),
             (1u32..=3, prop_oneof![6 => 1usize..=3, 2 => 4usize..=10], 0u8..4, 0u8..3, prop_oneof![2 => Just(0u8), 1 => 1u8..4, 1 => 4u8..12]),
-            (prop_oneof![12 => Just(0u16), 1 => 1000u16..3000], prop_oneof![3 => Just(0u8), 1 => 1u8..7]),
+            (prop_oneof![12 => Just(0u16), 1 => 1000u16..3000], prop_oneof![3 => Just(0u8), 1 => 1u8..7], prop::option::weighted(0.25, (any::<u16>(), 0u8..6, any::<bool>())), any::<bool>()),
             (prop::option::weighted(0.5, 0u8..14), prop::option::weighted(0.4, 0u16..12), any::<bool>(), prop::option::weighted(0.5, 0u16..10), prop::option::weighted(0.5, 0u8..4)),
         )
-            .prop_map(move |((fastq, n_records, sizes, cap, chunk, policy_t), (n_threads, queue_len, api, work_yields, consumer_yields), (many, trailing_blank), (bad, stop, ri, di, si))| {
+            .prop_map(move |((fastq, n_records, sizes, cap, chunk, policy_t), (n_threads, queue_len, api, work_yields, consumer_yields), (many, trailing_blank, io_fault, many_small_cap), (bad, stop, ri, di, si))| {
                 let mut c = RealCfg {
                     fastq,
                     n_records,
                     sizes,
                     bad_at: None,
-                    // thousands of tiny records: a buffer that holds > 1024 of them per batch
-                    cap: if many > 0 { 8192 + cap * 1000 } else { cap },
+                    // thousands of tiny records: a buffer that holds > 1024 of them per batch, or (C16) a small one
+                    cap: if many > 0 && !(many_small_cap && kind == Kind::C16) { 8192 + cap * 1000 } else if many > 0 { 1024 + cap * 20 } else { cap },
                     chunk: if many > 0 { 0 } else { chunk },
                     many,
                     trailing_blank,
+                    // source faults only where the clause under test is about errors / termination
+                    io_fault: if matches!(kind, Kind::C08 | Kind::C15) { io_fault } else { None },
                     n_threads,
                     queue_len,
                     stop_after: None,
@@ -405,6 +407,9 @@ impl Prop for Real {
             if c.cfg.trailing_blank > 0 {
                 ctx.class("blank lines after the last record");
             }
+            if let Some((_, k, sticky)) = c.cfg.io_fault {
+                ctx.class(&format!("source fails with {:?}{}", crate::real::FAULT_KINDS[k as usize % crate::real::FAULT_KINDS.len()], if sticky { " (persistent)" } else { "" }));
+            }
             if c.cfg.queue_len > 3 {
                 ctx.class("queue length 4..10");
             }
@@ -492,7 +497,7 @@ const ASSUME: [&str; 3] = [
 ];
 
 fn rule(kind: Kind) -> String {
-    let common = "cases = (base configuration: worker threads 1..4, queue length 1..4 (less often 5..12, and for C07 / C16 rarely 60..70 or 125..140 with correspondingly many sets), number of sets, per-set worker yields, consumer/reader yields; scheduler in {random, PCT depth 1..5, round robin}; scheduler seed); every execution runs the real read_parallel_init / parallel_fasta(_init) / parallel_fastq(_init) under shuttle with an instrumented mock reader (tagged data sets, content-dependent outputs) or the real readers over generated documents whose batches have different sizes (1 in 13: additionally 1000..3000 tiny records read with a buffer of 8..56 KiB, i.e. batches of more than 1024 records; 1 in 4: 1..6 blank lines after the last record). evaluations = executions (configuration variant x schedule). ";
+    let common = "cases = (base configuration: worker threads 1..4, queue length 1..4 (less often 5..12, and for C07 / C16 rarely 60..70 or 125..140 with correspondingly many sets), number of sets, per-set worker yields, consumer/reader yields; scheduler in {random, PCT depth 1..5, round robin}; scheduler seed); every execution runs the real read_parallel_init / parallel_fasta(_init) / parallel_fastq(_init) under shuttle with an instrumented mock reader (tagged data sets, content-dependent outputs) or the real readers over generated documents whose batches have different sizes (1 in 13: additionally 1000..3000 tiny records read with a buffer of 8..56 KiB, i.e. batches of more than 1024 records; 1 in 4: 1..6 blank lines after the last record; C08 / C15, 1 in 4: the source starts to fail at a generated byte position with Other / WouldBlock / TimedOut / PermissionDenied / UnexpectedEof / InvalidData, once or persistently - a source polled 3000 times after a persistent error counts as a spinning reader). evaluations = executions (configuration variant x schedule). ";
     let own = match kind {
         Kind::C07 => "Oracle: with a draining consumer every set / record reaches the consumer exactly once with the output computed for it, records inside a set in file order, sets in file order with one worker, worker saw each set once, end marker once. Non-trivial = >= 2 sets and (out-of-order completion, >= 2 workers, or recycling).",
         Kind::C08 => "Per base configuration the consumer behaviours (drain; stop after k results for every k in 0..=sets+1), a reader error at every set index and every init closure failing at each of its calls are enumerated. Oracle: shuttle reports no deadlock and no step-bound overrun, the call returns the expected result, and no callback runs after it returned. Non-trivial = consumer stopped with sets in flight, or a fault, or a consumer that never asks.",
